@@ -110,25 +110,53 @@ impl SanitizerConfig {
         }
     }
 
+    /// Clean the given node and its descendants.
+    ///
+    /// The tree is walked with an explicit stack rather than by recursion, because the nesting of
+    /// the input is only limited by its size when the config has no maximum depth.
     fn clean_node(&self, node: NodeRef, depth: u32) {
-        let node = self.apply_replacements(node);
-
-        let action = self.node_action(&node, depth);
-
-        if action != NodeAction::Remove {
-            for child in node.children() {
-                if action == NodeAction::Ignore {
-                    child.insert_before_sibling(&node);
-                }
-
-                self.clean_node(child, depth + 1);
-            }
+        enum Step {
+            /// Clean this node at this depth; if the parent is ignored, move the node before it
+            /// first.
+            Enter { node: NodeRef, depth: u32, ignored_parent: Option<NodeRef> },
+            /// All the children of this node have been cleaned.
+            Exit { node: NodeRef, action: NodeAction },
         }
 
-        if matches!(action, NodeAction::Ignore | NodeAction::Remove) {
-            node.detach();
-        } else if let Some(data) = node.as_element() {
-            self.clean_element_attributes(data);
+        let mut stack = vec![Step::Enter { node, depth, ignored_parent: None }];
+
+        while let Some(step) = stack.pop() {
+            match step {
+                Step::Enter { node, depth, ignored_parent } => {
+                    if let Some(parent) = ignored_parent {
+                        node.insert_before_sibling(&parent);
+                    }
+
+                    let node = self.apply_replacements(node);
+                    let action = self.node_action(&node, depth);
+
+                    stack.push(Step::Exit { node: node.clone(), action });
+
+                    if action != NodeAction::Remove {
+                        let ignored_parent = (action == NodeAction::Ignore).then_some(&node);
+                        let children = node.children().collect::<Vec<_>>();
+
+                        // The last step pushed is the first one handled.
+                        stack.extend(children.into_iter().rev().map(|child| Step::Enter {
+                            node: child,
+                            depth: depth + 1,
+                            ignored_parent: ignored_parent.cloned(),
+                        }));
+                    }
+                }
+                Step::Exit { node, action } => {
+                    if matches!(action, NodeAction::Ignore | NodeAction::Remove) {
+                        node.detach();
+                    } else if let Some(data) = node.as_element() {
+                        self.clean_element_attributes(data);
+                    }
+                }
+            }
         }
     }
 
@@ -448,7 +476,7 @@ impl SanitizerConfig {
 }
 
 /// The possible actions to apply to an element node.
-#[derive(Debug, PartialEq, Eq)]
+#[derive(Debug, Clone, Copy, PartialEq, Eq)]
 enum NodeAction {
     /// Don't do anything.
     None,
